@@ -337,6 +337,9 @@ func HandleSetFileInfo(cc *hotline.ClientConn, t *hotline.Transaction) (res []ho
 			if !cc.Authorize(hotline.AccessRenameFolder) {
 				return cc.NewErrReply(t, "You are not allowed to rename folders.")
 			}
+			// The new name is a single path element: it must not take the folder out of the folder it is in (that
+			// would be a move, which has its own request and privilege).
+			fullNewFilePath = filepath.Join(filepath.Dir(fullFilePath), filepath.Base(fullNewFilePath))
 			err = os.Rename(fullFilePath, fullNewFilePath)
 			if os.IsNotExist(err) {
 				return cc.NewErrReply(t, "Cannot rename folder "+string(fileName)+" because it does not exist or cannot be found.")
